@@ -559,6 +559,12 @@ def _special_cases():
         out.append({"kind": "special", "what": "vmdk-descriptor-chain-embedded-parents", "depth": depth})
     for fill in ("free", "int"):
         out.append({"kind": "special", "what": "hyperv-large-key-table", "fill": fill})
+    for refs in (8, 128):
+        for typ in ("key-table", "replay-log"):
+            out.append({"kind": "special", "what": "hyperv-object-fanout", "refs": refs, "type": typ})
+    for pairs in (256, 4096):
+        for has_parent in (0, 1):
+            out.append({"kind": "special", "what": "vhdx-locator-overlapping-strings", "pairs": pairs, "has_parent": has_parent})
     for where in ("first", "middle", "last", "only"):
         for how in ("handles", "descriptor"):
             out.append({"kind": "special", "what": "vmdk-zero-sector-extent", "where": where, "how": how})
@@ -1240,6 +1246,55 @@ def _run_special(case, ctx):
                               {"quarter_request_s": round(times[4], 2), "full_request_s": round(times[1], 2), "units": n})
                 return False
         return ok
+    if what == "hyperv-object-fanout":
+        # many object-table entries that all name the same key table (or replay log): the work to open the file does not grow
+        # with (references x size of what they name)
+        from mc.builders import hyperv as BHV
+
+        refs, typ = case["refs"], case["type"]
+        tsize = 0x20000
+        buf = bytearray(0x20000)
+        buf[0:0x30] = BHV.header(7, 0x8000).ljust(0x30, b"\0")[:0x30]
+        buf[0x1000:0x1030] = BHV.header(6, 0x8000).ljust(0x30, b"\0")[:0x30]
+        rl = BHV.replay()
+        buf[0x8000:0x8000 + len(rl)] = rl
+        ents = [(6, 0x8000, 0x1000, 1)] + [((2, 0x20000, tsize, 1) if typ == "key-table" else (6, 0x8000, 0x1000, 1))] * refs
+        if typ == "replay-log":
+            ents.append((2, 0x20000, tsize, 1))
+        ot = BHV.objtable(ents, n=len(ents) + 2)
+        assert 0x2000 + len(ot) <= 0x8000
+        buf[0x2000:0x2000 + len(ot)] = ot
+        body = struct.pack("<HHHI", 2, 1, 5, 0)
+        ent = struct.pack(BHV.ENT, BHV.T_FREE, 21, 0, 0, 0, 0, 0)
+        body += ent * ((tsize - len(body)) // len(ent) - 1)
+        raw = bytes(buf) + body.ljust(tsize, b"\0")
+        return _execute(ctx, case, None, raw, subject, drv_hyperv, {}, (len(raw) // 21) * 512)
+    if what == "vhdx-locator-overlapping-strings":
+        # a parent locator whose entries all point into one text area (strings 2 bytes apart, 65534 bytes long each): what is
+        # decoded and kept is bounded by the input, not by entries x 128 KiB
+        from mc.builders import vhdx as BX
+
+        pairs = case["pairs"]
+        img = BX.build([DATA, 0], [0, None], layer=2, parent=[("relative_path", ".\\base.vhdx"), ("parent_linkage", "{x}")])
+        raw = bytearray(img.tobytes())
+        loc = [f for f in img.fields if f[0] == "parent_locator.type"][0][1]
+        hdr_len = 20
+        table = hdr_len + 12 * pairs
+        text_at = (table + 511) // 512 * 512
+        area = 140000
+        struct.pack_into("<H", raw, loc + 18, pairs)
+        for i in range(pairs):
+            struct.pack_into("<IIHH", raw, loc + hdr_len + 12 * i, text_at + 2 * i, text_at + 2 * i + 4096, 65534, 65534)
+        need = loc + text_at + area
+        if len(raw) < need:
+            raw += bytes(need - len(raw))
+        text = "".join(f"{i:06x}-" for i in range(area // 14 + 1)).encode("utf-16-le")[:area]  # no two offsets read alike
+        raw[loc + text_at:loc + text_at + area] = text
+        if not case["has_parent"]:
+            fp = [f for f in img.fields if f[0] == "file_parameters.flags"]
+            if fp:
+                raw[fp[0][1]] &= ~2 & 0xFF
+        return _execute(ctx, case, None, bytes(raw), subject, drv_vhdx, {}, len(raw))
     if what == "hyperv-large-key-table":
         # one key table of 512 KiB and one of 2 MiB, both filled with minimal entries (Free entries of 21 bytes / Int entries
         # under one node): decoding four times the table may cost about four times the processor time (same rule as above)
